@@ -664,7 +664,11 @@ class Translator:
             if ch == '>': depth += 1
             elif ch == '<': depth -= 1
             elif ch == ':' and depth == 0 and i > 0 and q[i - 1] == ':':
-                return q[:i - 1]
+                c = q[:i - 1]
+                # class local to a function: `ns::fn(args)::cls` is indexed under its plain name
+                m = re.match(r"^.*\)(?: const)?::([A-Za-z_][A-Za-z_0-9]*(?:::[A-Za-z_][A-Za-z_0-9]*)*)$", c)
+                if m and m.group(1) in self.records: return m.group(1)
+                return c
             i -= 1
         return None
 
